@@ -216,4 +216,238 @@ theorem inv_removeDocTx {st sp} (h : Inv st sp) (d : String) {st' : St}
       · show (delDoc st.docs d).lookup d = none
         rw [lookup_delDoc]; simp
 
+theorem mem_map_mk (d : String) (pr : List (String × Term)) (e : EKey) :
+    e ∈ pr.map (mk d) ↔ (e.f, e.t) ∈ pr ∧ e.d = d := by
+  simp only [List.mem_map, mk]
+  constructor
+  · rintro ⟨q, hq, rfl⟩; exact ⟨hq, rfl⟩
+  · rintro ⟨hq, hd⟩; exact ⟨(e.f, e.t), hq, by cases e; simp_all⟩
+
+/-- A committed `addDocTx` of a document id that is not live adds exactly the facts of the
+    projected document.  (On a live id it does not: `bulk_replace_counterexample`.) -/
+theorem inv_addDocTx {st sp} (h : Inv st sp) (d : String) (doc : JV) {st' : St}
+    (hnew : st.docs.lookup d = none) (hs : addDocTx st d doc = some st') :
+    Inv st' (Spec.addDoc sp d doc) := by
+  have hno := (h.docKeys d).1 hnew
+  have hlp := addLoop_project doc d st.fields st.terms st.entries []
+  simp only [addDocTx] at hs
+  rw [h.fields] at hlp hs
+  cases hp : Spec.project doc sp.fields with
+  | none => simp only [hp] at hlp; simp [hlp] at hs
+  | some pr =>
+    simp only [hp] at hlp
+    obtain ⟨ts', es', h1, h2⟩ := hlp
+    simp only [h1] at hs
+    injection hs with hs; subst hs
+    have hfilter : (Spec.removeDoc sp d).docs = sp.docs := by
+      simp only [Spec.removeDoc]
+      apply List.filter_eq_self.2
+      intro p hp'; simpa using hno p hp'
+    have hfacts : ∀ e, e ∈ Spec.facts (Spec.addDoc sp d doc) ↔ e ∈ Spec.facts sp ∨ e ∈ pr.map (mk d) := by
+      intro e
+      simp only [Spec.addDoc, hp, mem_facts, hfilter, List.mem_cons, mem_map_mk]
+      constructor
+      · rintro ⟨p, hp' | hp', hq, hd⟩
+        · subst hp'; exact Or.inr ⟨hq, hd⟩
+        · exact Or.inl ⟨p, hp', hq, hd⟩
+      · rintro (⟨p, hp', hq, hd⟩ | ⟨hq, hd⟩)
+        · exact ⟨p, Or.inr hp', hq, hd⟩
+        · exact ⟨(d, pr), Or.inl rfl, hq, hd⟩
+    have hdocs : ∀ d', (setDoc st.docs d ([] ++ pr.map (mk d))).lookup d' =
+        if d' = d then some (pr.map (mk d)) else st.docs.lookup d' := by
+      intro d'
+      simp only [setDoc, List.lookup_cons, List.nil_append]
+      by_cases hdd : d' = d
+      · simp [hdd]
+      · have hb : (d' == d) = false := by simpa using hdd
+        simp only [hb, lookup_delDoc, hdd, if_false]
+    refine ⟨by simp [Spec.addDoc, hp], ?_, ?_, ?_, ?_⟩
+    · intro e
+      show e ∈ es' ↔ _
+      rw [h2 e, hfacts e, h.entries e]
+    · intro d'
+      show (setDoc st.docs d ([] ++ pr.map (mk d))).lookup d' = none ↔ _
+      rw [hdocs d']
+      simp only [Spec.addDoc, hp, hfilter, List.mem_cons]
+      by_cases hdd : d' = d
+      · subst hdd
+        simp only [if_true]
+        constructor
+        · intro hh; cases hh
+        · intro hh; exact absurd rfl (hh (d', pr) (Or.inl rfl))
+      · simp only [hdd, if_false, h.docKeys d']
+        constructor
+        · rintro hh p (hp' | hp')
+          · subst hp'; exact fun e => hdd e.symm
+          · exact hh p hp'
+        · intro hh p hp'; exact hh p (Or.inr hp')
+    · intro d' l' hl' e he hd
+      change (setDoc st.docs d ([] ++ pr.map (mk d))).lookup d' = some l' at hl'
+      change e ∈ es' at he
+      rw [hdocs d'] at hl'
+      rw [h2 e] at he
+      by_cases hdd : d' = d
+      · subst hdd
+        simp only [if_true] at hl'
+        injection hl' with hl'; subst hl'
+        rcases he with he | he
+        · exfalso
+          obtain ⟨p, hp', _, hd'⟩ := (mem_facts sp e).1 ((h.entries e).1 he)
+          exact hno p hp' (by rw [← hd', hd])
+        · exact he
+      · simp only [hdd, if_false] at hl'
+        rcases he with he | he
+        · exact h.docList d' l' hl' e he hd
+        · exfalso; exact hdd (by rw [← hd]; exact ((mem_map_mk d pr e).1 he).2)
+    · intro d' l' hl' e he
+      change (setDoc st.docs d ([] ++ pr.map (mk d))).lookup d' = some l' at hl'
+      rw [hdocs d'] at hl'
+      by_cases hdd : d' = d
+      · subst hdd
+        simp only [if_true] at hl'
+        injection hl' with hl'; subst hl'
+        exact ((mem_map_mk d' pr e).1 he).2
+      · simp only [hdd, if_false] at hl'
+        exact h.docOwn d' l' hl' e he
+
+/-- `none` when the projection of the document is rejected: a rejected insertion writes nothing
+    and the SPEC ignores it too. -/
+theorem addDocTx_rejected (st : St) (sp : Spec.Live) (hf : st.fields = sp.fields) (d : String) (doc : JV)
+    (hp : Spec.project doc sp.fields = none) :
+    addDocTx st d doc = none ∧ Spec.addDoc sp d doc = sp := by
+  have hlp := addLoop_project doc d st.fields st.terms st.entries []
+  rw [hf, hp] at hlp
+  simp only at hlp
+  constructor
+  · simp [addDocTx, hf, hlp]
+  · simp [Spec.addDoc, hp]
+
+/-- Bulk insertion is only judged on document ids that are not live (open finding C09-bulk-replace). -/
+def BulkFresh (sp : Spec.Live) : Op → Prop
+  | .addDocBulk d _ => ∀ p ∈ sp.docs, p.1 ≠ d
+  | _ => True
+
+/-- PARTIAL.  Every *committed* operation keeps the abstraction invariant; bulk insertion only
+    on a document id that is not live.  Missing for full strength: (1) that `removeLoop` never
+    fails on a reachable state (needs the term-key invariant "every entry has its term key and a
+    stored count is 0 or exact", which this file proves only locally as `count_lazy_*`; the
+    correspondence run observes that RemoveDoc/AddDoc never fail for that reason);
+    (2) bulk replacement, which the code gets wrong (`bulk_replace_counterexample`). -/
+theorem step_refines_partial {st sp} (h : Inv st sp) (o : Op) (hb : BulkFresh sp o) {st' : St}
+    (hs : stepM st o = some st') : Inv st' (stepS sp o) := by
+  cases o with
+  | addField f => simp only [stepM] at hs; injection hs with hs; subst hs; exact inv_addField h f
+  | removeField f => simp only [stepM] at hs; injection hs with hs; subst hs; exact inv_removeField h f
+  | removeDoc d => exact (inv_removeDocTx h d hs).1
+  | addDocBulk d doc =>
+    exact inv_addDocTx h d doc ((h.docKeys d).2 hb) hs
+  | addDoc d doc =>
+    simp only [stepM, C09.addDoc] at hs
+    cases hr : removeDocTx st d with
+    | none => simp [hr] at hs
+    | some st1 =>
+      simp only [hr] at hs
+      obtain ⟨h1, hnone, hfields⟩ := inv_removeDocTx h d hr
+      have h2 := inv_addDocTx h1 d doc hnone hs
+      -- SPEC: adding to the state without `d` is adding to the state
+      cases hp : Spec.project doc sp.fields with
+      | none =>
+        have := (addDocTx_rejected st1 (Spec.removeDoc sp d) h1.fields d doc hp).1
+        rw [this] at hs; cases hs
+      | some pr =>
+        have : Spec.addDoc (Spec.removeDoc sp d) d doc = Spec.addDoc sp d doc := by
+          simp only [Spec.addDoc, Spec.removeDoc, hp, List.filter_filter, Bool.and_self]
+        rw [this] at h2
+        exact h2
+
+/-- Run a sequence; an operation whose transaction fails leaves the state as it was. -/
+def runM : St → List Op → St
+  | st, [] => st
+  | st, o :: os => runM ((stepM st o).getD st) os
+
+def runS : Spec.Live → List Op → Spec.Live
+  | sp, [] => sp
+  | sp, o :: os => runS (stepS sp o) os
+
+/-- Every operation of the sequence either commits or is an insertion the SPEC rejects too, and
+    bulk insertions hit fresh ids. -/
+def Judged : St → Spec.Live → List Op → Prop
+  | _, _, [] => True
+  | st, sp, o :: os =>
+    BulkFresh sp o ∧
+    (match stepM st o with
+     | some st' => Judged st' (stepS sp o) os
+     | none => stepS sp o = sp ∧ Judged st sp os)
+
+/-- PARTIAL (see `step_refines_partial`).  For every operation sequence from the empty index the
+    key-value state abstracts to the live documents of the SPEC. -/
+theorem refinement_partial (ops : List Op) :
+    ∀ st sp, Inv st sp → Judged st sp ops → Inv (runM st ops) (runS sp ops) := by
+  induction ops with
+  | nil => intro st sp h _; exact h
+  | cons o os ih =>
+    intro st sp h hj
+    simp only [Judged] at hj
+    obtain ⟨hb, hrest⟩ := hj
+    simp only [runM, runS]
+    cases hs : stepM st o with
+    | some st' =>
+      simp only [hs] at hrest
+      exact ih st' (stepS sp o) (step_refines_partial h o hb hs) hrest
+    | none =>
+      simp only [hs] at hrest
+      simp only [Option.getD_none, hrest.1]
+      exact ih st sp h hrest.2
+
+/-! ### queries under the invariant -/
+
+/-- ids matching a term = the scan (same members; the MODEL lists them in key order). -/
+theorem termMatch_scan {st sp} (h : Inv st sp) (f : String) (t : Term) (d : String) :
+    d ∈ getTermMatch st f t 0 ↔ d ∈ Spec.termMatch sp f t := by
+  simp only [getTermMatch, Nat.lt_irrefl, if_false, mem_sortBy, Spec.termMatch, List.mem_map,
+    List.mem_filter, h.entries]
+
+/-- number values of a field = the scan: the key-ordered view the numeric queries walk over
+    holds exactly the (value, document) pairs of the live documents. -/
+theorem numView_scan {st sp} (h : Inv st sp) (f : String) (w : Nat) (d : String) :
+    (w, d) ∈ numView st f ↔ (⟨f, .num w, d⟩ : EKey) ∈ Spec.facts sp := by
+  simp only [numView, mem_sortBy, List.mem_filterMap, ← h.entries]
+  constructor
+  · rintro ⟨e, he, hx⟩
+    obtain ⟨f', t', d'⟩ := e
+    by_cases hf : f' = f
+    · subst hf
+      cases t' with
+      | str s => simp at hx
+      | num w' => simp at hx; obtain ⟨rfl, rfl⟩ := hx; exact he
+    · simp [hf] at hx
+  · intro he
+    exact ⟨_, he, by simp⟩
+
+/-- Open finding C09-bulk-replace, the negation of the full statement: whenever a live document
+    `d` holds `t` under `f` and is bulk-added again with a version that no longer does, the
+    committed state does NOT abstract to the live documents (the old entry stays).  The concrete
+    instance addField a; addDocBulk d1 {a:x}; addDocBulk d1 {a:y} is `corpus/C09/kf-bulk-replace.ops`,
+    replayed on the real code by every run (strings are opaque to the kernel, so the instance
+    cannot be evaluated by `decide` here). -/
+theorem bulk_replace_counterexample {st sp} (h : Inv st sp) (d : String) (doc : JV) (f : String) (t : Term)
+    (hlive : (⟨f, t, d⟩ : EKey) ∈ st.entries) {st' : St} (hs : addDocTx st d doc = some st')
+    (pr : List (String × Term)) (hp : Spec.project doc sp.fields = some pr) (hnot : (f, t) ∉ pr) :
+    ¬ Inv st' (Spec.addDoc sp d doc) := by
+  intro hinv
+  have hlp := addLoop_project doc d st.fields st.terms st.entries []
+  simp only [addDocTx] at hs
+  rw [h.fields, hp] at hlp
+  obtain ⟨ts', es', h1, h2⟩ := hlp
+  rw [h.fields, h1] at hs
+  injection hs with hs; subst hs
+  have hin : (⟨f, t, d⟩ : EKey) ∈ es' := (h2 _).2 (Or.inl hlive)
+  have := (hinv.entries _).1 hin
+  rw [mem_facts] at this
+  obtain ⟨p, hp', hq, hd⟩ := this
+  simp only [Spec.addDoc, hp, Spec.removeDoc, List.mem_cons, List.mem_filter] at hp'
+  rcases hp' with rfl | ⟨_, hne⟩
+  · exact hnot hq
+  · simp at hne; exact hne hd.symm
+
 end Grip.Props.C09
